@@ -91,6 +91,9 @@ type agg struct {
 	parRuns      int
 	parRaces     int
 	refCompared  int
+
+	harnessLimit    int
+	harnessLimitWhy []string
 }
 
 func newAgg(nsites int) *agg {
@@ -482,6 +485,12 @@ func (a *agg) addBatch(b *Batch, br *BatchResult, keepSamples int) {
 			t.MaxOpSteps = s.MaxOpSteps
 		}
 		a.raceReports += r.RaceCount
+		if s.Aborted == "harness-limit" {
+			a.harnessLimit++
+			if len(a.harnessLimitWhy) < 3 {
+				a.harnessLimitWhy = append(a.harnessLimitWhy, s.AbortDetail)
+			}
+		}
 		a.fingerprints[s.Fingerprint] = struct{}{}
 		nontriv := s.SameObjPreempts > 0
 		if nontriv {
@@ -796,6 +805,13 @@ func checkIn(cfg checkCfg, scratch string, t0 time.Time) int {
 	}
 	b.Fidelity = fid
 	fmt.Println("vsim: fidelity gate:", oneLine(fid, 300))
+
+	if ag.harnessLimit > 0 {
+		fmt.Printf("vsim: note: %d run(s) stopped at a simulator capacity limit and were not judged: %v\n", ag.harnessLimit, ag.harnessLimitWhy)
+		if ag.harnessLimit*50 > ag.runs && len(ag.violations) == 0 {
+			fail2("%d of %d runs hit a simulator capacity limit (%v); too many to call the exploration meaningful", ag.harnessLimit, ag.runs, ag.harnessLimitWhy)
+		}
+	}
 
 	// ---- reach floor ----
 	var unreached []string
